@@ -165,6 +165,7 @@ func genC17(seed uint64, run int, tier string) *Case {
 	}
 	c.Vars = c17Vars(r, countNodes(m))
 	c.Knobs.SwitchThr = pick(r, []int{26, 128, 256})
+	c.Knobs.ReuseOpts = r.p(0.5)
 	t := make([]uint16, 500)
 	for i := range t {
 		t[i] = uint16(r.Uint32())
